@@ -13,6 +13,7 @@ Usage: gen_tables.py OUTDIR_LEAN OUT_JSON     (prints "changed" / "unchanged")
 import json
 import os
 import re
+from collections.abc import Mapping
 import sys
 
 REPO = os.environ.get("VERIF_REPO", "/repo")
@@ -49,7 +50,7 @@ def extract():
     fid = {}
     bad_fields = 0
     for name, spec in core.RTCM_DATA_FIELDS.items():
-        ok = isinstance(name, str) and isinstance(spec, tuple) and len(spec) == 4
+        ok = isinstance(name, str) and isinstance(spec, (tuple, list)) and len(spec) == 4   # unpacked, never type-tested
         ty = "other"
         width = 0
         res = ["none"]
@@ -89,7 +90,7 @@ def extract():
         attr_id.setdefault(d, nf + i)
 
     def conv_items(d):
-        if not isinstance(d, dict):
+        if not isinstance(d, Mapping):      # iterated and indexed only: any mapping (e.g. a read-only proxy) behaves alike
             return [["malformed", MAL_NOT_DICT]]
         out = []
         for key, adef in d.items():
